@@ -1,7 +1,7 @@
 """Case generator for lane `selpure` (C04 pure leaf functions: An+B test, attribute operators).
 
 gen(rng, n, tier, pid) -> list[str]; every random choice comes from `rng`.
-Mix: ~35 % `nth`, ~45 % `attr`, ~15 % `el`, ~5 % malformed lines.
+Mix: ~30 % `nth`, ~38 % `attr`, ~14 % `el`, ~14 % `elop`, ~4 % malformed lines.
 """
 
 I32_MIN, I32_MAX = -2**31, 2**31 - 1
@@ -196,6 +196,46 @@ def gen_el(rng, tier):
     return f"el {kind} {ns} {hx(key)} {s}"
 
 
+# ---------------------------------------------------------------- elop
+CI_NAMES = ("accept accept-charset align alink axis bgcolor charset checked clear codetype color compact "
+            "declare defer dir direction disabled enctype face frame hreflang http-equiv lang language link "
+            "media method multiple nohref noresize noshade nowrap readonly rel rev rules scope scrolling "
+            "selected shape target text type valign valuetype vlink").split()
+CS_NAMES = ["data-k", "href", "types", "typ", "langx", "class", "id", "x-type", "acceptcharset", "k\u00e9",
+            "value", "name", "src", "title", "style", "width", "accept_charset", "httpequiv", "vlin", "alinks"]
+
+
+def gen_elop(rng, tier):
+    op = rng.choice(OPS)
+    flag = rng.choice(["s", "i", "n", "n"])
+    ns = "html" if rng.random() < 0.65 else "svg"
+    base = rng.choice(CI_NAMES if rng.random() < 0.55 else CS_NAMES)
+    sel_name = flip_case(rng, list(base.encode())) if rng.random() < 0.4 else list(base.encode())
+    needle = rand_word(rng, 0 if rng.random() < 0.1 else 1, 3)
+    attrs = []
+    for _ in range(rng.randint(0, 3)):
+        r = rng.random()
+        if r < 0.6:
+            name = flip_case(rng, list(base.encode())) if rng.random() < 0.5 else list(base.encode())
+        else:
+            name = list(rng.choice(CI_NAMES + CS_NAMES).encode())
+        near = flip_case(rng, needle) if rng.random() < 0.5 else list(needle)
+        shape = rng.choice(["exact", "pre", "suf", "mid", "dash", "word", "other"])
+        pad = lambda: rand_word(rng, 0, 2)
+        val = {
+            "exact": near,
+            "pre": near + pad(),
+            "suf": pad() + near,
+            "mid": pad() + near + pad(),
+            "dash": near + [0x2D] + pad(),
+            "word": pad() + [rng.choice(WS)] + near + [rng.choice(WS)] + pad(),
+            "other": pad(),
+        }[shape]
+        attrs.append((name, val))
+    s = ",".join(f"{bytes(n).hex()}:{hx(v)}" for n, v in attrs) or "-"
+    return f"elop {op} {flag} {ns} {hx(sel_name)} {hx(needle)} {s}"
+
+
 # ---------------------------------------------------------------- malformed
 def gen_bad(rng):
     return rng.choice([
@@ -204,7 +244,8 @@ def gen_bad(rng):
         "attr eq d html 61 ff", "attr eq d html 61 00", "attr eq d html 2227 61", "attr sub i html 61 c3",
         "attr pre s html 61 eda080", "attr pre s html 61 c080",
         "el id html - 6964:61", "el id html 61 6964", "el id html 61 20:61", "el foo html 61 -",
-        "el has html 61 3d:61", "", "zzz",
+        "el has html 61 3d:61", "", "zzz", "elop eq q html 61 61 -", "elop eq n html - 61 -",
+        "elop eq n html 61 61 61:61:61",
     ])
 
 
@@ -212,12 +253,14 @@ def gen(rng, n, tier, pid):
     out = []
     for _ in range(n):
         r = rng.random()
-        if r < 0.35:
+        if r < 0.30:
             out.append(gen_nth(rng, tier))
-        elif r < 0.80:
+        elif r < 0.68:
             out.append(gen_attr(rng, tier))
-        elif r < 0.95:
+        elif r < 0.82:
             out.append(gen_el(rng, tier))
+        elif r < 0.96:
+            out.append(gen_elop(rng, tier))
         else:
             out.append(gen_bad(rng))
     return out
@@ -245,6 +288,9 @@ def stats(cases, obs):
                 c["attr/empty-operand"] += 1
         elif kind == "el" and o0 in ("0", "1"):
             c[f"el/{f[1]}/{o0}"] += 1
+        elif kind == "elop" and o0 in ("0", "1"):
+            c[f"elop/{f[1]}/{o0}"] += 1
+            c[f"elop-flag/{f[2]}-{f[3]}/{o0}"] += 1
         else:
             c[f"other/{o0.split()[0] if o0 else 'empty'}"] += 1
         if "||ORACLE:" in o:
